@@ -49,6 +49,7 @@ type c12Input struct {
 	Plan   string    `json:"plan"`          // ok | wrong-finished
 	Pos    int       `json:"pos"`           // handshake position (puppet steps done) where early arrivals are injected
 	Big    bool      `json:"big,omitempty"` // more than 480 bytes may be pending (only streams where nothing follows delivered data)
+	Pipe   bool      `json:"pipe,omitempty"` // the transport reports a read on a closed stream as io.ErrClosedPipe (like net.Pipe), not net.ErrClosed
 	Calls  []c12Call `json:"calls"`
 }
 
@@ -172,6 +173,9 @@ func c12New(in c12Input) *c12Sess {
 		s.T, s.raw, s.pconn = tlcp.Client(cli, tc), cli, srv
 	} else {
 		s.T, s.raw, s.pconn = tlcp.Server(srv, tc), srv, cli
+	}
+	if in.Pipe {
+		s.raw.In.ClosedErr = io.ErrClosedPipe
 	}
 	p := &puppet.Peer{L: &c12Link{s}, Client: !targetIsClient, Vers: puppet.VersionTLCP}
 	s.P = p
@@ -1102,6 +1106,9 @@ func runC12(p params) error {
 			for k := 0; k <= n; k++ {
 				c12AddCase(out, "cancel-at-step", c12Input{Target: target, Suite: suite, Plan: "ok", Pos: r.IntN(n), Calls: []c12Call{
 					{Op: "hsctx", N: k}, op("handshake"), wr(3), op("end"), rd(5), {Op: "hsctx", N: 0}, op("closewrite"), op("close"), op("close"), op("handshake")}})
+				// the same over a transport whose closed-stream error is not net.ErrClosed
+				c12AddCase(out, "cancel-at-step-pipe", c12Input{Target: target, Suite: suite, Plan: "ok", Pos: r.IntN(n), Pipe: true, Calls: []c12Call{
+					{Op: "hsctx", N: k}, op("handshake"), wr(3), rd(5), op("close")}})
 				if thorough || k%2 == 0 { // with records that arrive before: ignored ones and fatal ones
 					pos := r.IntN(n)
 					c12AddCase(out, "cancel-at-step", c12Input{Target: target, Suite: suite, Plan: "ok", Pos: pos, Calls: []c12Call{
